@@ -223,6 +223,11 @@ SPECS["C17"] = dict(
             dict(id="sessions", run="^TestC17Sessions$", quick=dict(shards=4, checks=40, timeout=600, shrinktime=30), thorough=dict(shards=6, checks=1500, timeout=3400, shrinktime=300)),
             dict(id="conversion", run="^TestC17Conversion$", quick=dict(shards=4, checks=15000, timeout=300), thorough=dict(shards=8, checks=250000, timeout=1500)),
             dict(id="invalid", run="^TestC17Invalid$", quick=dict(shards=2, checks=15000, timeout=300), thorough=dict(shards=4, checks=150000, timeout=1500)),
+            dict(id="udp", run="^TestC17UDP$", quick=dict(shards=2, checks=150, timeout=600, shrinktime=30), thorough=dict(shards=4, checks=5000, timeout=3400, shrinktime=300)),
+        ]),
+        dict(name="c17-poll_opt", pkg="./verifx/c17", tags="poll_opt", tests=[
+            dict(id="sessions", run="^TestC17Sessions$", quick=dict(shards=3, checks=40, timeout=600, shrinktime=30), thorough=dict(shards=4, checks=1500, timeout=3400, shrinktime=300)),
+            dict(id="udp", run="^TestC17UDP$", quick=dict(shards=2, checks=150, timeout=600, shrinktime=30), thorough=dict(shards=4, checks=5000, timeout=3400, shrinktime=300)),
         ]),
     ],
 )
